@@ -80,7 +80,7 @@ int cmdRun(int argc, char** argv) {
 	std::string outPath = argv[2];
 	{ Out trunc(outPath); }
 	size_t crashes = runForkedCases(
-		cases.size(), outPath, 120,
+		cases.size(), outPath, 40,
 		[&](size_t k, std::string& out) {
 			JV c = jparse(cases[k]);
 			std::string bytes = inputBytes(c["file"].s);
